@@ -264,6 +264,9 @@ func execFn(f []string) vlib.Res {
 		cut, cutKey, key := parseT(f[4]), vlib.AtoU64(f[5]), vlib.AtoU64(f[6])
 		now2 := parseT(f[7])
 		leaseDeadline := obs.Add(time.Duration(nsTTL) * time.Second)
+		if ceiling := obs.Add(authority.VerifC08LeaseCeiling()); leaseDeadline.After(ceiling) {
+			leaseDeadline = ceiling
+		}
 		if len(ds) > 0 {
 			if dsDeadline := obs.Add(time.Duration(resolver.VerifC08MinRRSetTTL(dsRRs(ds))) * time.Second); dsDeadline.Before(leaseDeadline) {
 				leaseDeadline = dsDeadline
@@ -290,6 +293,7 @@ func execFn(f []string) vlib.Res {
 			if !cut.IsZero() {
 				lim = min64(lim, int64(cut.Sub(base)))
 			}
+			lim = min64(lim, o+twelveH) // the ceiling is measured from the observation
 			lim = min64(lim, int64(now2.Sub(base))+twelveH)
 			if got := int64(storedT.Sub(base)); got > lim {
 				or = fmt.Sprintf("FAIL sig=lease/stored-later-than-granted limit=%d got=%d", lim, got)
@@ -556,7 +560,8 @@ func repoDir() string {
 
 func facts() map[string]any {
 	out := map[string]any{
-		"maximumTTL_ns": int64(authority.VerifC08MaximumTTL()),
+		"maximumTTL_ns":    int64(authority.VerifC08MaximumTTL()),
+		"lease_ceiling_ns": int64(authority.VerifC08LeaseCeiling()),
 	}
 	for k, v := range shapeFacts(filepath.Join(repoDir(), "middleware/resolver/resolver.go")) {
 		out[k] = v
@@ -654,6 +659,7 @@ func has(xs []string, s string) bool {
 // Every fact is `true` on a tree that has the shape the model assumes.
 func shapeFacts(path string) map[string]any {
 	keys := []string{"shape_observed_before_validate", "shape_single_clock_read", "shape_lease_anchored_at_observation",
+		"shape_lease_clamped_at_observation",
 		"shape_ds_bounds_lease", "shape_setuntil_from_mincut", "shape_validreferral_before_setuntil",
 		"shape_provisional_bounded_by_cut", "shape_cached_descent_min", "shape_seed_min", "shape_notecut_after_each_cut",
 		"shape_subquery_stores_cut", "shape_hit_does_not_store"}
@@ -691,22 +697,61 @@ func shapeFacts(path string) map[string]any {
 		// leaseDeadline is only ever observedAt.Add(...) or a dsDeadline that is observedAt.Add(...)
 		lrhs, _ := assignments(fset, pd, "leaseDeadline")
 		drhs, _ := assignments(fset, pd, "dsDeadline")
+		crhs0, _ := assignments(fset, pd, "ceiling")
 		okLease := len(lrhs) >= 1
 		for _, e := range lrhs {
 			if _, ok := isCall(fset, e, "observedAt.Add"); ok {
 				continue
 			}
-			if exprStr(fset, e) == "dsDeadline" {
+			if x := exprStr(fset, e); x == "dsDeadline" || x == "ceiling" {
 				continue
 			}
 			okLease = false
 		}
-		for _, e := range drhs {
+		for _, e := range append(drhs, crhs0...) {
 			if _, ok := isCall(fset, e, "observedAt.Add"); !ok {
 				okLease = false
 			}
 		}
 		out["shape_lease_anchored_at_observation"] = okLease
+		// the 12 h ceiling is applied to the lease itself, from the observation, before anything derives from it:
+		// `if ceiling := observedAt.Add(authority.MaximumTTL); leaseDeadline.After(ceiling) { leaseDeadline = ceiling }`
+		// ahead of validateDelegation, minCut and every noteCut
+		ast.Inspect(pd, func(n ast.Node) bool {
+			is, ok := n.(*ast.IfStmt)
+			if !ok || is.Init == nil {
+				return true
+			}
+			as, ok := is.Init.(*ast.AssignStmt)
+			if !ok || len(as.Lhs) != 1 || len(as.Rhs) != 1 || exprStr(fset, as.Lhs[0]) != "ceiling" {
+				return true
+			}
+			c, ok := isCall(fset, as.Rhs[0], "observedAt.Add")
+			if !ok || len(c.Args) != 1 || exprStr(fset, c.Args[0]) != "authority.MaximumTTL" {
+				return true
+			}
+			cond, ok := isCall(fset, is.Cond, "leaseDeadline.After")
+			if !ok || len(cond.Args) != 1 || exprStr(fset, cond.Args[0]) != "ceiling" {
+				return true
+			}
+			lowers := false
+			for _, st := range is.Body.List {
+				if a, ok := st.(*ast.AssignStmt); ok && len(a.Lhs) == 1 && exprStr(fset, a.Lhs[0]) == "leaseDeadline" && exprStr(fset, a.Rhs[0]) == "ceiling" {
+					lowers = true
+				}
+			}
+			before := len(valCalls) == 1 && is.Pos() < valCalls[0].Pos()
+			for _, mc := range callsOf(fset, pd, "minCut") {
+				before = before && is.Pos() < mc.Pos()
+			}
+			for _, nc := range callsOf(fset, pd, "noteCut") {
+				before = before && is.Pos() < nc.Pos()
+			}
+			if lowers && before && is.Else == nil {
+				out["shape_lease_clamped_at_observation"] = true
+			}
+			return true
+		})
 		// the DS bound: an `if len(rs.parentDS) > 0` whose body lowers leaseDeadline
 		// to a dsDeadline built from minRRSetTTL(rs.parentDS), guarded by dsDeadline.Before(leaseDeadline)
 		ast.Inspect(pd, func(n ast.Node) bool {
